@@ -18,7 +18,16 @@ def rank_chop_contract(ex, f, args, kwargs):
     return r
 
 
-def install(ex, rank_chop=True):
+def svd_contract(ex, f, args, kwargs):
+    """use of the contract of _decomposition.SVD (proved in C01 scenario SVD.contract for both of its branches):
+    returns (U, S, Vh) of the reduced SVD of `mat` -- the same ghost record as torch.linalg.svd(mat, full_matrices=False)"""
+    from ttvc import optable
+    return optable._svd(ex, [args[0]], {'full_matrices': False})
+
+
+def install(ex, rank_chop=True, svd=False):
     if rank_chop:
         from ttvc import gauge
         ex.call_hooks['torchtt._decomposition.rank_chop'] = gauge.rank_chop_contract
+    if svd:
+        ex.call_hooks['torchtt._decomposition.SVD'] = svd_contract
